@@ -203,7 +203,9 @@ def emit_nodes(nodes, out):
             out.append("\n% try:\n")
             emit_nodes(n[1], out)
             out.append("\n%% except %s as e_:\n" % EXCEPT_CLAUSE)
-            out.append("[caught ${str(e_)}]")
+            # (the text of a TypeError raised by a call that does not bind names the callable the way CPython does for
+            # generated code - `render_d1.<locals>.d2() got ...` - which no reference interpreter reproduces: its type is shown)
+            out.append("[caught ${'TypeError' if isinstance(e_, TypeError) else str(e_)}]")
             emit_nodes(n[2], out)
             out.append("\n% endtry\n")
         elif k == "RAISE":
@@ -521,7 +523,7 @@ class Model:
                 except (Exception, BoomBase) as e:
                     assert len(self.buffers) == depth
                     self.events.add("handled")
-                    self.write("[caught %s]" % e)
+                    self.write("[caught %s]" % ("TypeError" if isinstance(e, TypeError) else e))
                     self.run(n[2], scope)
                     self.write("\n")
             elif k == "RAISE":
